@@ -225,6 +225,10 @@ def run(tier, seed):
                 {"OMP_NUM_THREADS": "16", "MKL_NUM_THREADS": "16", "OPENBLAS_NUM_THREADS": "16", "NUMBA_NUM_THREADS": "16"}]
     with ThreadPoolExecutor(max_workers=4) as tp:
         futs = [(v, h, tp.submit(run_history, h, None, v)) for v in variants for h in (["fit:daily:A", "fit:billing:A"], ["fit:hourly:A"])]
+        # the CalTRACK hourly family solves its weighted least squares through LAPACK/BLAS: a few BLAS threads (2; thorough: 4, 16, unset)
+        two = {k: "2" for k in variants[0]}
+        ct_variants = [two] if tier == "quick" else [two, {k: "4" for k in variants[0]}] + variants
+        futs += [(v, ["fit:caltrack:A"], tp.submit(run_history, ["fit:caltrack:A"], None, v, None, 3000)) for v in ct_variants]
         for v, h, f in futs:
             res = f.result()
             stats["processes"] += 1
